@@ -262,6 +262,9 @@ func (tbls *TBLS) ensureInitOrPanic() {
 }
 
 func (tbls *TBLS) flattenPublicKeys() [][]byte {
+	tbls.lock.Lock()
+	defer tbls.lock.Unlock()
+
 	publicKeys := make([][]byte, len(tbls.parties))
 	for i, p := range tbls.parties {
 		rawPK, exists := tbls.publicKeysOfParties[p]
@@ -275,6 +278,9 @@ func (tbls *TBLS) flattenPublicKeys() [][]byte {
 }
 
 func (tbls *TBLS) assembleThresholdPublicKey() (map[string]*math.G2, *math.G2) {
+	tbls.lock.Lock()
+	defer tbls.lock.Unlock()
+
 	thresholdPublicKeys := make(map[string]*math.G2)
 	var thresholdPublicKey *math.G2
 	chooseKoutOfN(len(tbls.parties), tbls.threshold, func(evaluationPoints []int64) {
@@ -374,6 +380,9 @@ func (tbls *TBLS) commitPhase(ctx context.Context, pk []byte) {
 }
 
 func (tbls *TBLS) combineShares() []byte {
+	tbls.lock.Lock()
+	defer tbls.lock.Unlock()
+
 	for _, party := range tbls.parties {
 		if party == tbls.Party {
 			continue
